@@ -10,7 +10,7 @@
        RemovalStep*   (tree paths, children first: os.rename into pending-deletion or limbo)
        InsertionStep* (final paths, parents first: os.rename out of limbo)
        DeletionStep*  (delete_any of the pending deletions)              -- the commit point is BEFORE these
-       ApplyInventory (apply_inventory_delta / _apply_index_changes)
+       ApplyInventory (apply_inventory_delta / _apply_index_changes; it may itself raise: fault index MetaK)
        CleanupStep*   (finalize(): delete_any of stale limbo names, the limbo dir, the pending-deletion dir)
    The k-th call fails (Fault): before the commit point apply switches to RollbackStep* (journal reversed), in the
    deletion phase the error propagates.  Then the caller's finalize() runs (Finalize).
@@ -20,7 +20,8 @@
    invariant holds.  The harness probes which order each flavour of the tree under test implements and expects the
    counter-example to reproduce exactly on the flavours with the FALSE order. *)
 EXTENDS TransformMaps, SequencesExt
-CONSTANTS Cases, MaxK, InventoryFirst
+CONSTANTS Cases, MaxK, InventoryFirst,
+          MetaInTry       \* the metadata update sits inside apply()'s try block: its failure rolls the file moves back
 VARIABLES m, k, fs, inv, pc, rem, ins, del, cln, nops, journal, failedIn
 vars == <<m, k, fs, inv, pc, rem, ins, del, cln, nops, journal, failedIn>>
 
@@ -59,11 +60,12 @@ RenameOK(f, op) == (\E o \in f : o.at = op.from) /\ ~(\E o \in f : o.at = op.to)
 DeleteOK(f, p)  == (\E o \in f : o.at = p) /\ ~(\E o \in f : o.at # p /\ IsUnder(p, o.at))
 
 Fault == k = nops + 1
+MetaK == 99                    \* fault index meaning "the metadata update itself raises" (not a file-system call, not counted)
 
 Init == \E mm \in Cases :
           LET r == RemSeq(mm)  i == InsSeq(mm)  d == SelectSeq(r, LAMBDA t : t \in mm.removed)  c == NClean(mm)
               tot == Len(r) + Len(i) + Len(d) + c
-          IN /\ m = mm /\ k \in 0..(IF tot < MaxK THEN tot ELSE MaxK)
+          IN /\ m = mm /\ k \in 0..(IF tot < MaxK THEN tot ELSE MaxK) \cup {MetaK}
              /\ fs = PreFS(mm) /\ inv = PreInv /\ pc = "removals"
              /\ rem = r /\ ins = i /\ del = d /\ cln = c
              /\ nops = 0 /\ journal = <<>> /\ failedIn = NONE
@@ -87,8 +89,14 @@ DeletionStep  == /\ pc = "deletions" /\ del # <<>> /\ nops' = nops + 1
                  /\ UNCHANGED <<m, k, inv, rem, ins, cln, journal>>
 DeletionsDone == /\ pc = "deletions" /\ del = <<>> /\ pc' = (IF InventoryFirst THEN "cleanup" ELSE "inventory")
                  /\ UNCHANGED <<m, k, fs, inv, rem, ins, del, cln, nops, journal, failedIn>>
-ApplyInventory == /\ pc = "inventory" /\ inv' = PostInv(m) /\ pc' = (IF InventoryFirst THEN "deletions" ELSE "cleanup")
-                  /\ UNCHANGED <<m, k, fs, rem, ins, del, cln, nops, journal, failedIn>>
+\* apply_inventory_delta / _apply_index_changes.  When it raises: inside the try block (and before the deletions) the journal is
+\* rolled back; otherwise the error propagates with the files where they are.
+ApplyInventory == /\ pc = "inventory"
+                  /\ IF k = MetaK
+                     THEN /\ failedIn' = "metadata" /\ UNCHANGED inv
+                          /\ pc' = (IF MetaInTry /\ InventoryFirst THEN "rollback" ELSE "finalize")
+                     ELSE /\ inv' = PostInv(m) /\ pc' = (IF InventoryFirst THEN "deletions" ELSE "cleanup") /\ UNCHANGED failedIn
+                  /\ UNCHANGED <<m, k, fs, rem, ins, del, cln, nops, journal>>
 CleanupStep   == /\ pc = "cleanup" /\ cln > 0 /\ nops' = nops + 1
                  /\ IF Fault THEN pc' = "end" /\ failedIn' = "cleanup" /\ UNCHANGED cln
                     ELSE cln' = cln - 1 /\ UNCHANGED <<pc, failedIn>>
@@ -110,7 +118,9 @@ Spec == Init /\ [][Next]_vars
         o.disk  set of [path, kind, c, t]   files and directories of the working tree (c/t: whose content, files only)
         o.ver   set of [path, kind]         versioned paths as a re-opened tree reports them
         o.left  BOOLEAN                     limbo / pending-deletion still hold something after finalize
+        o.reusable BOOLEAN                  a further transform can be built and applied on the tree
         o.phase where the failing call was: "removal" | "insertion" | "deletion" | "cleanup" | NONE (no failure)
+                | "metadata" (the inventory / index update itself raised)
                 | "spontaneous" (apply raised although no fault was injected)
         w       Want(transform): pre / post disk, pre / post versioning, calls per phase
    The same text judges the model's terminal states (below) and the recorded real executions (TransformTrace). *)
@@ -134,12 +144,15 @@ VerAsCoded(w, fl, o) == IF fl = "git" THEN VerEq(fl, o.ver, w.gitinv) ELSE VerIs
 LawAllOrNothing(w, fl, o) == (DiskIsPre(w, o) /\ VerIsPre(w, fl, o)) \/ (DiskIsPost(w, o) /\ VerIsPost(w, fl, o))
 LawConsistent(w, fl, o)   == \A v \in o.ver : \E d \in o.disk : d.path = v.path /\ d.kind = v.kind
 \* a failure before the transform is committed restores every file and directory exactly
-LawRollbackExact(w, fl, o) == o.phase \in {"removal", "insertion"} => DiskIsPre(w, o) /\ VerIsPre(w, fl, o) /\ ~o.left
+LawRollbackExact(w, fl, o) == o.phase \in {"removal", "insertion"} => DiskIsPre(w, o) /\ VerIsPre(w, fl, o) /\ ~o.left /\ o.reusable
+\* ... and so does a failure of the metadata update itself: entirely old, nothing left behind, the tree stays usable
+LawMetadataRollsBack(w, fl, o) == o.phase = "metadata" => DiskIsPre(w, o) /\ VerIsPre(w, fl, o) /\ ~o.left /\ o.reusable
 \* a failure while discarding replaced content never leaves the metadata describing the old layout
 LawDeletionNewMeta(w, fl, o) == o.phase = "deletion" => VerIsPost(w, fl, o)
-LawNames == <<"allornothing", "consistent", "rollback", "deletion">>
+LawNames == <<"allornothing", "consistent", "rollback", "deletion", "metadata">>
 Law(n, w, fl, o) == CASE n = "allornothing" -> LawAllOrNothing(w, fl, o) [] n = "consistent" -> LawConsistent(w, fl, o)
                       [] n = "rollback" -> LawRollbackExact(w, fl, o) [] n = "deletion" -> LawDeletionNewMeta(w, fl, o)
+                      [] n = "metadata" -> LawMetadataRollsBack(w, fl, o)
 \* the property speaks about applies in which a file-system call FAILED
 Failed(w, fl, o) == IF o.phase = NONE THEN {} ELSE {n \in Rng(LawNames) : ~Law(n, w, fl, o)}
 Shape(w, fl, o)  == [disk |-> IF DiskIsPost(w, o) THEN "post" ELSE IF DiskIsPre(w, o) THEN "pre" ELSE "other",
@@ -148,7 +161,7 @@ Shape(w, fl, o)  == [disk |-> IF DiskIsPost(w, o) THEN "post" ELSE IF DiskIsPre(
 \* conformance with the model: an apply that did not fail (or failed only while cleaning up) produced the declared
 \* result (as coded); the k-th call is in the phase the model says; the number of calls is the model's
 Sum(n) == n.removal + n.insertion + n.deletion + n.cleanup
-PhaseAt(n, kk) == IF kk = 0 \/ kk > Sum(n) THEN NONE
+PhaseAt(n, kk) == IF kk = MetaK THEN "metadata" ELSE IF kk = 0 \/ kk > Sum(n) THEN NONE
                   ELSE IF kk <= n.removal THEN "removal" ELSE IF kk <= n.removal + n.insertion THEN "insertion"
                   ELSE IF kk <= n.removal + n.insertion + n.deletion THEN "deletion" ELSE "cleanup"
 DoneIsPost(w, fl, o) == o.phase \in {NONE, "cleanup"} => DiskIsPost(w, o) /\ VerAsCoded(w, fl, o) /\ ~o.left
@@ -156,7 +169,7 @@ Drift(w, fl, kk, o, ncalls) == (IF o.phase # PhaseAt(w.n, kk) THEN {"phase"} ELS
                         \cup (IF o.phase = NONE /\ ncalls # Sum(w.n) THEN {"nops"} ELSE {})
                         \cup (IF ~DoneIsPost(w, fl, o) THEN {"result"} ELSE {})
 
-SpecObs == [disk |-> ObsDisk(fs), ver |-> inv, left |-> Left(fs) # {}, phase |-> failedIn]
+SpecObs == [disk |-> ObsDisk(fs), ver |-> inv, left |-> Left(fs) # {}, reusable |-> Left(fs) = {}, phase |-> failedIn]
 
 (* ---- invariants of the model *)
 NotStuck       == pc # "stuck"                      \* every rename has a source, a free destination and a parent directory
@@ -164,6 +177,7 @@ AllOrNothing   == pc = "end" => LawAllOrNothing(Want(m), "bzr", SpecObs)
 MetaConsistent == pc = "end" => LawConsistent(Want(m), "bzr", SpecObs)
 RollbackExact  == pc = "end" => LawRollbackExact(Want(m), "bzr", SpecObs)
 DeletionFailureNewMeta == pc = "end" => LawDeletionNewMeta(Want(m), "bzr", SpecObs)
+MetaFailureRollsBack == pc = "end" => LawMetadataRollsBack(Want(m), "bzr", SpecObs)
 Conformant     == pc = "end" => Drift(Want(m), "bzr", k, SpecObs, nops) = {}
 \* anti-vacuity
 WitnessRollbackNested == ~(pc = "end" /\ failedIn = "insertion" /\ Len(journal) = 0 /\ nops >= 4)
